@@ -4,6 +4,8 @@ VARIANTS = {
     "plain": {},
     # queue code with sync/channel operations routed through the controlled scheduler
     "sched-queue": {"rewrite": ["internal/queue/*.go"]},
+    # message pipeline of the root package: queues, message store and group context on the scheduler shims
+    "sched-msg": {"rewrite": ["internal/queue/*.go", "store_message.go", "group_context.go"], "extra_harness": ["queue_export"]},
     # rendezvous rotation on the virtual clock
     "vtime": {"rewrite": [["pkg/rendezvous/rotation.go", "time"], ["pkg/rendezvous/rendezvous.go", "time"]]},
     # secret store with its mutexes visible to the scheduler (datastore operations are points via the harness datastore)
@@ -161,5 +163,14 @@ CHECKS = {
         rule="2 invitations x (256+256+512 bit flips + removals/truncations + 6 group-type values + 2 foreign-secret variants); valid join then identity comparison; per group type the descriptor is compared field by field, tried on every metadata and message envelope produced by a real member, and its log addresses compared; distinct = (mutation kind, outcome) classes",
         assumptions=["a nil group is a malformed request, exercised at the service boundary by C19",
                      "the link-key fields of an invitation are not part of what the property requires to be authenticated"],
+    ),
+    "C08": dict(
+        harness="root", run="TestVerifC08", variant="sched-msg", level="model_checking", gomaxprocs=2,
+        shards={"quick": 8, "thorough": 16},
+        technique="stateless model checking of the real message pipeline (processMessageLoop, addToMessageQueue, handleGroupMetadataEvent -> RegisterChainKey -> ProcessMessageQueueForDevicePK) under a controlled scheduler: all interleavings at the lock/channel operations of the queues, the message store and the group context, iterative preemption bounding",
+        rule="9 (quick) / 11 scenarios: 1-3 messages of 1-2 senders arriving singly, reversed, duplicated or from two threads, chain key registered before or concurrently, window 1 or 4, optional cancellation; quiescence is read from scheduler state; states = distinct schedule prefixes, transitions = scheduling steps, traces = complete executions; classes = (scenario, delivery order / parked set) outcomes",
+        assumptions=["the secret store, protobuf and crypto code run atomically between two scheduling points (the secret store's own interleavings are C09's)",
+                     "the MessageStore is constructed without an orbit-db log behind it: entries are built by the harness, the two event emitters record what is emitted",
+                     "sequentially consistent interleavings at synchronisation operations; unlock is not a preemption point"],
     ),
 }
